@@ -83,8 +83,8 @@ def _analyses():
             "factors IS adjointness for all inputs); linearity in g of every rule closure (two-point domain over linear_in facts); 'same' entries only on linear pairs.",
         ),
         "C05": (
-            [a3.vjp, a3.helpers, a3_reduce.reductions, km.squeeze_axes, a4.match, kc.zero_paths, a1.types, a2.layout, a4_dtype.dtype_comparisons, a4_dtype.cotangent_template],
-            "A gradient lives in its argument's space: shape support under broadcasting (A3.vjp), real/complex kind for every kind assignment of the arguments (A4.match, exhaustive 2^n), "
+            [a3.vjp, a3.helpers, a3_reduce.reductions, km.squeeze_axes, a4.match, kc.zero_paths, a1.types, a2.layout, a4_dtype.dtype_comparisons, a4_dtype.cotangent_template, vjp_axis],
+            "A gradient lives in its argument's space: shape support under broadcasting (A3.vjp), no axis arithmetic that changes meaning for a negative axis (A7: such a slip cuts the cotangent along the wrong axis), real/complex kind for every kind assignment of the arguments (A4.match, exhaustive 2^n), "
             "kind decisions never made by dtype == <Python scalar type> (A4.dtypecmp), the shape/dtype template of a rebuilt cotangent taken from the differentiated argument (A4.template), zeros of the argument's / output's space on independent paths (A13.zero), one Box and one VSpace per differentiable type (A1.types), container layout (A2.layout).",
         ),
         "C06": (
@@ -119,8 +119,8 @@ def _analyses():
             "indices accumulate (A9.scatter), __getitem__/untake pairing on the same index and the argument's space (A2.repo), both sparse object types registered (A1.types), 'same' JVPs (A1.lin).",
         ),
         "C12": (
-            [a2.layout, a2.variadic, a2.argnums_rules, _dict_keys, ka.container_boxes, km.container_vspaces, _container_spaces, _flatten_order, a7_order.layout_constants],
-            "Containers: offset arithmetic of sequence_extend / make_sequence (A2.layout, A2.variadic, A2.argnums), content accessors of SequenceBox/DictBox go through the primitive (A14.containers), "
+            [a2.layout, a2.variadic, a2.argnums_rules, _dict_keys, ka.container_boxes, km.container_vspaces, _container_spaces, _flatten_order, a7_order.layout_constants, _a2_index_pairing],
+            "Containers: offset arithmetic of sequence_extend / make_sequence (A2.layout, A2.variadic, A2.argnums), container indexing paired with its scatter on the same index on every path (A2.repo), content accessors of SequenceBox/DictBox go through the primitive (A14.containers), "
             "every registered container space resolves its abstract members, flatten destructures make_vjp as (unflatten, flat) and visits dict keys in sorted order; no ravel/reshape/flatten call in the library asks for a layout-relative element order (A7.order, call-site clause).",
         ),
         "C13": (
@@ -413,31 +413,41 @@ def _vspace_members(ctx, world):
     ctx.floor("A1.members resolved", n, 30)
     # ArrayVSpace.__init__: shape and dtype are those of np.asarray(value), on every path
     ma, fa = world.repo.find_def("autograd.numpy.numpy_vspaces", "ArrayVSpace.__init__")
-    from .kfun import paths as _paths
+    # decided on the evaluated constructor: every store into self is `self.<f> = np.asarray(value).<f>` for f in
+    # {shape, dtype}, both fields are stored unconditionally, nothing else is stored
+    from .kfun import eval_function as _evf0
+    from .tutil import expand as _exp0, unseq as _uns0
+    from .analyses.common import resolve_callee as _rc0
 
-    selfn, valn = fa.args.args[0].arg, fa.args.args[1].arg
+    r0_, sy0_, m0_, fn0_, sc0_ = _evf0(world, "autograd.numpy.numpy_vspaces", "ArrayVSpace.__init__")
+    self0, val0 = sy0_["#0"], sy0_["#1"]
     okp = True
     why = ""
-    for pth in _paths(fa.body):
-        if pth[-1].kind == "raise":
+    uncond = set()
+    for e0 in sc0_.effects:
+        cond = False
+        while e0.op == "when":
+            cond = True
+            e0 = e0.eff
+        if e0.op != "setattr":
             continue
-        env = {}
-        got = {}
-        for evn in pth:
-            st = evn.node
-            if evn.kind == "stmt" and isinstance(st, ast.Assign) and len(st.targets) == 1:
-                t, v = st.targets[0], st.value
-                if isinstance(t, ast.Name):
-                    is_as = isinstance(v, ast.Call) and getattr(v.func, "attr", getattr(v.func, "id", "")) in ("asarray", "asanyarray", "array") and v.args and isinstance(v.args[0], ast.Name) and (v.args[0].id == valn or env.get(v.args[0].id) == "value")
-                    env[t.id] = "asarray" if is_as else ("value" if isinstance(v, ast.Name) and v.id == valn else "other")
-                elif isinstance(t, ast.Attribute) and isinstance(t.value, ast.Name) and t.value.id == selfn:
-                    src = None
-                    if isinstance(v, ast.Attribute) and isinstance(v.value, ast.Name) and env.get(v.value.id) == "asarray" and v.attr == t.attr:
-                        src = "asarray"
-                    got[t.attr] = src
-        if got.get("shape") != "asarray" or got.get("dtype") != "asarray" or set(got) - {"shape", "dtype"}:
+        st0 = e0.store
+        if st0.obj is not self0:
+            continue
+        fld = st0.idx.value if st0.idx.op == "const" else None
+        v0 = _uns0(_exp0(world.ev, st0.val, ()))
+        good = False
+        if fld in ("shape", "dtype") and v0.op == "attr" and v0.name == fld and v0.obj.op == "call" and v0.obj.args and v0.obj.args[0] is val0:
+            rf0, _p0 = _rc0(world.ev, v0.obj)
+            good = rf0 is not None and rf0.qual.rsplit(".", 1)[-1] in ("asarray", "asanyarray", "array")
+        if not good:
             okp = False
-            why = f"on a path of __init__ the fields are {got}"
+            why = f"self.{fld} is set to {str(v0)[:50]}"
+        elif not cond:
+            uncond.add(fld)
+    if okp and uncond != {"shape", "dtype"}:
+        okp = False
+        why = f"only {sorted(uncond)} are stored on every path"
     if okp:
         ctx.ob("A1.members", "ArrayVSpace.__init__: shape/dtype = those of np.asarray(value) on every path; no other field", True, loc_of(ma, fa))
     else:
